@@ -44,9 +44,12 @@ Proof. exact (collapse_explicit n). Qed.
 Print Assumptions C04_collapse_explicit.
 
 (* Finding F6 (and its residue F6b): the utility of the lark 1.3.1 snapshot raises on a None placeholder child
-   although the tree has a well-defined expansion; the repaired model does not. *)
+   although the tree has a well-defined expansion; the repaired model does not.
+   f6_tree / f6b_tree are lark's explicit trees for  start: [A] b / b: A? "c"  on "ac"  and
+   start: q A / ?q: [A] | b / b: B*  on "a" (both replayed on the code by the exotic stream). *)
 Theorem C04_collapse_none_refuted :
-  collapse_old false false f6_tree = AssertFail /\ expand f6_tree = [Nd "start" [Nn; Nd "b" [Tk "A" "a"; Tk "C" "c"]]]
+  collapse_old false false f6_tree = AssertFail
+  /\ expand f6_tree = [Nd "start" [Tk "A" "a"; Nd "b" []]; Nd "start" [Nn; Nd "b" [Tk "A" "a"]]]
   /\ collapse_old true false f6b_tree = AssertFail
   /\ expand f6b_tree = [Nd "start" [Nd "b" []; Tk "A" "a"]; Nd "start" [Nn; Tk "A" "a"]]
   /\ collapse f6_tree = Ok (expand f6_tree) /\ collapse f6b_tree = Ok (expand f6b_tree).
